@@ -161,8 +161,19 @@ async fn boot_and_judge(h: &mut History, case: Case<'_>, rng: &mut Rng, rep: &mu
         let chain = node.chain.read().await;
         let findings = check_consistency(&chain, &mut h.b.store, gp);
         rep.count("consistency_checks");
+        // the restarted node sits on a branch the running node had abandoned, although it holds the
+        // block the running node was on: the first file the loader meets belongs to a dead fork at
+        // the prune horizon and every later block goes down add_block's out-of-order branch
+        let abandoned = tip != case.mark.tip && !h.b.store.is_ancestor(&tip, &case.mark.tip) && chain.blocks.contains_key(&case.mark.tip);
+        if abandoned {
+            rep.count("restarts_on_abandoned_branch");
+        }
         for f in findings.iter().take(2) {
-            rep.violation(&format!("C12|clause=restart-state-inconsistent|{}", f.clause), &format!("case '{}': {}", case.label, f.detail), wit());
+            rep.violation(
+                &format!("C12|clause=restart-state-inconsistent|{}{}", f.clause, if abandoned { "|cause=restarted-on-abandoned-branch-main-chain-held-but-not-adopted" } else { "" }),
+                &format!("case '{}': restarted at {} ({}), running node was at {} ({}): {}", case.label, tip_id, hex::encode(&tip[..3]), case.mark.tip_id, hex::encode(&case.mark.tip[..3]), f.detail),
+                wit(),
+            );
         }
         if let (Some(s), Some(want)) = (supply(&chain, gp), case.mark.supply) {
             rep.count("supply_checks");
@@ -195,11 +206,12 @@ async fn boot_and_judge(h: &mut History, case: Case<'_>, rng: &mut Rng, rep: &mu
                 // shorter branch: the fork choice (longer AND at least as much burn fee, decided
                 // when a block arrives) depends on the order of arrival, and a restart replays the
                 // files in timestamp order
-                let holds_all = chain.blocks.contains_key(&case.mark.tip) && h.b.store.ancestors(&case.mark.tip).iter().rev().take(4).all(|x| chain.blocks.contains_key(x));
+                // (either way round: B may also end on a longer branch that A held but did not prefer)
+                let holds_all = chain.blocks.contains_key(&case.mark.tip) && h.b.store.ancestors(&case.mark.tip).iter().rev().take(4).all(|x| chain.blocks.contains_key(x)) && case.mark.known.contains(&tip) && h.b.store.chain_valid(&tip);
                 rep.violation(
                     if tie {
                         "C12|clause=clean-restart-tip-differs|cause=equal-length-branches-load-order"
-                    } else if holds_all && tip_id < case.mark.tip_id {
+                    } else if holds_all {
                         "C12|clause=clean-restart-tip-differs|cause=shorter-branch-kept-fork-choice-depends-on-arrival-order"
                     } else {
                         "C12|clause=clean-restart-tip-differs"
@@ -402,6 +414,17 @@ async fn replay(path: &str, rep: &mut Report) {
         crate::logsink::install_stderr(if std::env::var("SVH_DEBUG").map(|v| v == "2").unwrap_or(false) { log::LevelFilter::Debug } else { log::LevelFilter::Info });
     }
     let key = actors(8)[r["replica_key"].as_u64().unwrap_or(1) as usize].clone();
+    if std::env::var("SVH_DEBUG").is_ok() {
+        for (k, v) in files.iter().filter(|(k, _)| k.starts_with(BLOCK_DIR)) {
+            match saito_core::core::consensus::block::Block::deserialize_from_net(v) {
+                Ok(mut b) => {
+                    let _ = b.generate();
+                    eprintln!("FILE {} id {} {} <- {}", &k[BLOCK_DIR.len()..], b.id, hex::encode(&b.hash[..3]), hex::encode(&b.previous_block_hash[..3]));
+                }
+                Err(_) => eprintln!("FILE {} undecodable ({} bytes)", k, v.len()),
+            }
+        }
+    }
     let mut node = Node::new(&key, &params, MemIo::from_files(files), VClock::new(T0 + 7_200_000), vec![], "http://b.example:1");
     rep.eval();
     {
